@@ -102,6 +102,10 @@ fn scripted(req: Request, log: &Mutex<Vec<String>>) -> Response {
         let mut r = Response::new(200);
         r.body = servlin::internal::ResponseBody::File(PathBuf::from("/nonexistent-dir-servlin-verif/body"), 10);
         r
+    } else if let Some(ms) = path.strip_prefix("/w") {
+        // a handler that takes a while
+        std::thread::sleep(std::time::Duration::from_millis(num(ms)));
+        Response::text(200, v)
     } else if path == "/d" {
         Response::drop_connection()
     } else if path == "/p" {
@@ -250,7 +254,7 @@ fn digest_wire(w: &[u8]) -> String {
 /// Mode S: a full server; the client writes the script in the pieces given by the schedule
 /// (piece lengths separated by ','; 0 = one write of everything), pausing `pause_ms` between
 /// pieces, then half-closes and reads to EOF.
-fn server(toks: &[&str], idle: bool) -> String {
+fn server(toks: &[&str], idle: bool, revoke_mid: bool) -> String {
     let small: usize = toks[0].parse().unwrap();
     let tmp = temp_dir::TempDir::new().unwrap();
     let cache = cache_dir(toks[1], &tmp);
@@ -295,6 +299,12 @@ fn server(toks: &[&str], idle: bool) -> String {
         if pause_ms > 0 && pos < script.len() {
             std::thread::sleep(std::time::Duration::from_millis(pause_ms));
         }
+    }
+    if revoke_mid {
+        // mode R: the server's permit is revoked while the handler of the (only) request is running: the exchange that
+        // is in flight is completed all the same
+        std::thread::sleep(std::time::Duration::from_millis(120));
+        permit.revoke();
     }
     // mode I: the client keeps the connection open and idles after it has received the answers;
     // an upload's temp file must be gone by the time its request has been answered, not only
@@ -426,8 +436,9 @@ fn main() {
     run_lines_marked(|toks| match toks[0] {
         "tables" => tables(),
         "D" => direct(&toks[1..]),
-        "S" => server(&toks[1..], false),
-        "I" => server(&toks[1..], true),
+        "S" => server(&toks[1..], false, false),
+        "I" => server(&toks[1..], true, false),
+        "R" => server(&toks[1..], false, true),
         "X" => direct_fsize(&toks[1..]),
         "B" => server_busy(&toks[1..]),
         _ => "?".to_string(),
